@@ -115,7 +115,12 @@ LEVEL_TEXT["C13"] = {
 def vt(src, q_cases, q_budget, t_cases, t_budget, shards=8, size=100, **kw):
     d = {"src": src, "flavour": "rel", "engine": "E-vt",
          "quick": {"shards": shards, "cases": q_cases, "budget": q_budget, "size": size},
-         "thorough": {"shards": 14, "cases": t_cases, "budget": t_budget, "size": size}}
+         "thorough": {"shards": 12, "cases": t_cases, "budget": t_budget, "size": size},
+         # every 3rd shard schedules with PCT (random priorities + few change points) instead of uniform choice
+         "pct_every": 3,
+         # small-scope systematic part: all schedules (<= preempt preemptions) of small generated cases
+         "enumerate": {"quick": {"shards": 2, "cases": 400, "budget": 20, "size": 10, "max_schedules": 400, "depth": 60, "preempt": 2},
+                       "thorough": {"shards": 4, "cases": 20000, "budget": 500, "size": 14, "max_schedules": 20000, "depth": 80, "preempt": 3}}}
     d.update(kw)
     return d
 
@@ -242,14 +247,15 @@ LEVEL_TEXT["C04"] = {
 }
 
 PROPS["C03"] = {
-    "targets": [rt("props/C03_senders.cpp", 1500, 70, 20000, 900)],
+    "targets": [rt("props/C03_senders.cpp", 1500, 70, 20000, 900),
+                vt("props/C03_race_vt.cpp", 6000, 40, 100000, 600, shards=6)],
     "rule": "case = pipeline term (depth <= 5, <= 15 nodes) over leaves {just, transfer_just, schedule|then, instrumented leaf sender with "
             "channel in value/error/stopped and timing in inline / later on the pool / later on a plain OS thread} and adaptors {then, "
             "then(throw), let_value, let_error, continues_on, drop_value|then, drop_operation_state, require_started, ensure_started, split "
             "(1..3 consumers), split_tuple, unpack, bulk, any_sender copy, when_all (2..3), when_all_vector (1..3)}; every edge erased to "
             "unique_any_sender<P> so the real adaptors compose at run time; terminal = own receiver (connect+start) or sync_wait; run on the "
             "real runtime (1..4 workers, 8 policies, perturbation); non-trivial iff depth >= 3 and (a non-value leaf or a shared-state "
-            "adaptor with an asynchronous leaf beneath it); distinct by hash of the decoded case",
+            "adaptor with an asynchronous leaf beneath it); distinct by hash of the decoded case. Race target (E-vt): adaptor in {split, ensure_started, split(ensure_started), split_tuple, when_all, when_all_vector} over 1..3 leaf senders whose completion (value / error / stopped, inline or by a designated logical thread after a delay) races with 1..3 consumers being connected and started (or dropped unstarted) by other logical threads; decision points at hook sites 120-130 inside the adaptors' predecessor_done / continuation hand-off and finish() counters, at spinlock and agent operations; oracle: every started consumer gets exactly one admissible completion, no predecessor is started twice, any all-blocked/spinning state is a lost completion; non-trivial iff a consumer start overlapped a predecessor completion",
     "floor": {"quick": 100, "thorough": 1000},
     "assumptions": ["when_all with several failing children may deliver any one of their non-value signals (set-valued oracle)",
                     "sync_wait is only used on terms that cannot complete with stopped (its return type cannot express it)",
